@@ -288,7 +288,9 @@ func TestVerifWorker(t *testing.T) {
 // form of a crash (the parent turns it into a violation of class sys.cpu_loop) and exits.
 func spinWatch() func() {
 	done := make(chan struct{})
+	exited := make(chan struct{})
 	go func() {
+		defer close(exited)
 		last, since := -1, time.Now()
 		for {
 			select {
@@ -296,10 +298,7 @@ func spinWatch() func() {
 				return
 			case <-time.After(5 * time.Second):
 			}
-			steps := 0
-			for _, sm := range zsim.Created {
-				steps += sm.Stats.Steps
-			}
+			steps := int(zsim.StepCount.Load())
 			if steps != last {
 				last, since = steps, time.Now()
 				continue
@@ -343,7 +342,7 @@ func spinWatch() func() {
 			since = time.Now() // nothing of fzf's is running: the harness or the runtime is busy; keep waiting
 		}
 	}()
-	return func() { close(done) }
+	return func() { close(done); <-exited }
 }
 
 func runOne(sc scenario, c *runCtx, res *runResult) {
